@@ -111,15 +111,35 @@ def run_standard(prop, tier, gens, case_of, trace, key_of, corruptors, init_name
                 continue
             events.append({'id': idx, 'c': c['c'], 'obs': o})
         res = judge.judge(work, trace[0], events, cfg=trace[1], min_shard=judge_shard)
-        # binding self-test
+        # binding self-test: corrupt observations that TLC accepts.  A change under test may have broken many events (and
+        # the list of failing events is capped), so the genuine candidates are judged first and only accepted ones are used.
+        known_bad = {b[0] for b in res['bad']}
+        cand, owner = [], []
+        for ci, (sel, mut) in enumerate(corruptors):
+            n = 0
+            for e in events:
+                if n >= 8:
+                    break
+                if e['id'] not in known_bad and 'exception' not in e['obs'] and sel(e):
+                    cand.append(copy.deepcopy(e))
+                    owner.append(ci)
+                    n += 1
+        for k, e in enumerate(cand):
+            e['id'] = k
+        accepted = set(range(len(cand)))
+        if cand and res['nbad'] > 0:
+            r0 = judge.judge(work, trace[0], cand, cfg=trace[1], shards=1)
+            accepted -= {b[0] for b in r0['bad']}
         st_events = []
-        for sel, mut in corruptors:
-            src = next((e for e in events if 'exception' not in e['obs'] and sel(e)), None)
+        good = None
+        for ci, (sel, mut) in enumerate(corruptors):
+            src = next((cand[k] for k in range(len(cand)) if owner[k] == ci and k in accepted), None)
             if src is None:
                 print('MACHINERY: binding self-test found no event to corrupt for %s' % getattr(mut, '__name__', 'corruptor'))
                 return 2
+            if good is None:
+                good = copy.deepcopy(src)
             st_events.append(mut(copy.deepcopy(src)))
-        good = next((e for e in events if 'exception' not in e['obs']), None)
         nbadwant = len(st_events)
         if good is not None:
             st_events.append(copy.deepcopy(good))
@@ -127,7 +147,7 @@ def run_standard(prop, tier, gens, case_of, trace, key_of, corruptors, init_name
             e['id'] = k
         if st_events:
             rs = judge.judge(work, trace[0], st_events, cfg=trace[1], shards=1)
-            good_is_bad = good is not None and any(b[0] == nbadwant for b in rs['bad']) and not any(b[0] == good['id'] for b in res['bad'])
+            good_is_bad = good is not None and any(b[0] == nbadwant for b in rs['bad'])
             if sorted(b[0] for b in rs['bad'] if b[0] < nbadwant) != list(range(nbadwant)) or good_is_bad:
                 print('MACHINERY: binding self-test failed: corrupted observations accepted or a genuine one rejected: %s' % (rs['bad'],))
                 return 2
